@@ -12,8 +12,8 @@ TRUSTED = ['real-arithmetic semantics for floats (rounding outside)', 'n, k rela
 GUARD = []
 
 
-def extract(m, fname):
-    """{kind: (pc, lo, hi)} of the Ok paths with the oracle abstracted by Z"""
+def extract_all(m, fname):
+    """{kind: [(pc, lo, hi), ...]} - every Ok path with the oracle abstracted by Z (a change may split a path into several)"""
     out = {}
     for p in proportion_paths(m, fname):
         if p['rk'] == 'stuck':
@@ -25,8 +25,13 @@ def extract(m, fname):
             continue
         if variant != 'TwoSided':
             raise mir.Stuck('proportion interval stored as %s' % variant)
-        out[p['kind']] = ([abstract_apps(c, {'Zq': Z}) for c in p['pc']], abstract_apps(bounds[0], {'Zq': Z}), abstract_apps(bounds[1], {'Zq': Z}))
+        out.setdefault(p['kind'], []).append(([abstract_apps(c, {'Zq': Z}) for c in p['pc']], abstract_apps(bounds[0], {'Zq': Z}), abstract_apps(bounds[1], {'Zq': Z})))
     return out
+
+
+def extract(m, fname):
+    """{kind: (pc, lo, hi)}: the first Ok path per kind (callers that relate two evaluations use extract_all)"""
+    return {k: v[0] for k, v in extract_all(m, fname).items()}
 
 
 def run(ctx):
@@ -48,53 +53,58 @@ def run(ctx):
 
 
 def family(ctx, m, fname, tag, lo_dom):
-    ex = extract(m, fname)
-    if set(ex) != {0, 1, 2}:
-        m.stuck('C17:%s' % tag, 'Ok paths for kinds %s only' % sorted(ex))
+    exa = extract_all(m, fname)
+    if set(exa) != {0, 1, 2}:
+        m.stuck('C17:%s' % tag, 'Ok paths for kinds %s only' % sorted(exa))
         return
     zero, one, half = T.fconst(0), T.fconst(1), T.fconst(Fraction(1, 2))
     k2, n2, Z2, mm = T.var('k2', 'i'), T.var('n2', 'i'), T.var('Z2'), T.var('m')
     dom = lambda n, k: [T.mk('fge', T.mk('i2f', k), T.fconst(lo_dom)), T.mk('fge', T.mk('fsub', T.mk('i2f', n), T.mk('i2f', k)), T.fconst(lo_dom))]
     zpos = [T.mk('fgt', Z, zero)]
-    pc0, lo, hi = ex[0]
     sub = lambda t, ren: rename(t, ren)
     P = 'C17:%s:' % tag
-    # --- mirror: the interval for n-k successes is 1 - (interval for k), upper/lower exchanged
     nk = T.mk('isub', n_i, k_i)
     mir_ren = {'k': nk}
-    hy = pc0 + [sub(c, mir_ren) for c in pc0] + dom(n_i, k_i)
-    m.submit(P + 'mirror:two-sided', hy, T.and_(T.mk('feq', sub(lo, mir_ren), T.mk('fsub', one, hi)), T.mk('feq', sub(hi, mir_ren), T.mk('fsub', one, lo))), key=P + 'mirror', note='CI(n, n-k) = 1 - CI(n, k)')
-    pcu, lou, hiu = ex[1]
-    pcl, lol, hil = ex[2]
-    hy = nokind(pcl) + [sub(c, mir_ren) for c in nokind(pcu)] + dom(n_i, k_i)
-    m.submit(P + 'mirror:one-sided', hy, T.and_(T.mk('feq', sub(lou, mir_ren), T.mk('fsub', one, hil)), T.mk('feq', sub(hiu, mir_ren), T.mk('fsub', one, lol))), key=P + 'mirror',
-             note='upper one-sided CI(n, n-k) = 1 - lower one-sided CI(n, k)')
-    # --- monotone in k
-    ren = {'k': k2}
+    multi = any(len(v) > 1 for v in exa.values())
     zrange = zpos + ([T.mk('fle', Z, T.fconst(4))] if tag == 'wald' else [])
-    hy = pc0 + [sub(c, ren) for c in pc0] + dom(n_i, k_i) + dom(n_i, k2) + [T.mk('ile', k_i, k2)] + zrange
-    m.submit(P + 'monotone-in-k:lower-bound', hy, T.mk('fle', lo, sub(lo, ren)), key=P + 'monotone-in-k', timeout=240, note='k <= k\' => lo(k) <= lo(k\')')
-    m.submit(P + 'monotone-in-k:upper-bound', hy, T.mk('fle', hi, sub(hi, ren)), key=P + 'monotone-in-k', timeout=240, note='k <= k\' => hi(k) <= hi(k\')')
-    m.submit(P + 'monotone-in-k:premises', hy + [T.mk('ilt', k_i, k2)], None, expect='sat', key='C17:vacuity')
-    # --- same proportion on a larger population: strictly narrower
-    ren = {'n': T.mk('imul', mm, n_i) if False else n2, 'k': k2}
-    scale = [T.mk('feq', T.mk('i2f', n2), T.mk('fmul', mm, n_f)), T.mk('feq', T.mk('i2f', k2), T.mk('fmul', mm, k_f)), T.mk('fgt', mm, one)]
-    hy = pc0 + [sub(c, ren) for c in pc0] + dom(n_i, k_i) + scale + zpos
-    m.submit(P + 'shrinks-with-n', hy, T.mk('flt', T.mk('fsub', sub(hi, ren), sub(lo, ren)), T.mk('fsub', hi, lo)), key=P + 'shrinks-with-n', timeout=240, note='width(m n, m k) < width(n, k) for m > 1')
-    # --- wider with z (hence with the level)
-    ren = {'Z': Z2}
-    hy = pc0 + [sub(c, ren) for c in pc0] + dom(n_i, k_i) + zpos + [T.mk('flt', Z, Z2)]
-    m.submit(P + 'wider-with-level', hy, T.and_(T.mk('fle', sub(lo, ren), lo), T.mk('fle', hi, sub(hi, ren))), key=P + 'wider-with-level', timeout=240, note='z < z\' => CI(z) inside CI(z\')')
-    # --- within [0,1] (Wilson), midpoint between k/n and 1/2 (Wilson)
     phat = T.mk('fdiv', k_f, n_f)
-    hy = pc0 + dom(n_i, k_i) + zpos
-    if tag == 'wilson':
-        m.submit(P + 'within-unit-interval', hy, T.and_(T.mk('fle', zero, lo), T.mk('fle', hi, one)), key=P + 'within-unit-interval')
-        mid = T.mk('fdiv', T.mk('fadd', lo, hi), T.fconst(2))
-        goal = T.or_(T.and_(T.mk('fle', phat, mid), T.mk('fle', mid, half)), T.and_(T.mk('fle', half, mid), T.mk('fle', mid, phat)))
-        m.submit(P + 'midpoint-between-phat-and-half', hy, goal, key=P + 'midpoint', note='midpoint of the two-sided interval lies between k/n and 1/2')
-    else:
-        mid = T.mk('fdiv', T.mk('fadd', lo, hi), T.fconst(2))
-        m.submit(P + 'midpoint-is-phat', hy, T.mk('feq', mid, phat), key=P + 'midpoint')
-    m.submit(P + 'premises', hy, None, expect='sat', key='C17:vacuity')
+    # relations between two evaluations: every pair of paths (on the unchanged code one path per kind)
+    for i, (pci, loi, hii) in enumerate(exa[0]):
+        for j, (pcj, loj, hij) in enumerate(exa[0]):
+            sfx = '' if not multi else ':paths%d-%d' % (i, j)
+            vac = (i == j)
+            hy = pci + [sub(c, mir_ren) for c in pcj] + dom(n_i, k_i)
+            m.submit(P + 'mirror:two-sided' + sfx, hy, T.and_(T.mk('feq', sub(loj, mir_ren), T.mk('fsub', one, hii)), T.mk('feq', sub(hij, mir_ren), T.mk('fsub', one, loi))), key=P + 'mirror', note='CI(n, n-k) = 1 - CI(n, k)', vacuity=vac)
+            ren = {'k': k2}
+            hy = pci + [sub(c, ren) for c in pcj] + dom(n_i, k_i) + dom(n_i, k2) + [T.mk('ile', k_i, k2)] + zrange
+            m.submit(P + 'monotone-in-k:lower-bound' + sfx, hy, T.mk('fle', loi, sub(loj, ren)), key=P + 'monotone-in-k', timeout=240, note="k <= k' => lo(k) <= lo(k')", vacuity=vac)
+            m.submit(P + 'monotone-in-k:upper-bound' + sfx, hy, T.mk('fle', hii, sub(hij, ren)), key=P + 'monotone-in-k', timeout=240, note="k <= k' => hi(k) <= hi(k')", vacuity=False)
+            ren = {'n': n2, 'k': k2}
+            scale = [T.mk('feq', T.mk('i2f', n2), T.mk('fmul', mm, n_f)), T.mk('feq', T.mk('i2f', k2), T.mk('fmul', mm, k_f)), T.mk('fgt', mm, one)]
+            hy = pci + [sub(c, ren) for c in pcj] + dom(n_i, k_i) + scale + zpos
+            m.submit(P + 'shrinks-with-n' + sfx, hy, T.mk('flt', T.mk('fsub', sub(hij, ren), sub(loj, ren)), T.mk('fsub', hii, loi)), key=P + 'shrinks-with-n', timeout=240, note='width(m n, m k) < width(n, k) for m > 1', vacuity=vac)
+            ren = {'Z': Z2}
+            hy = pci + [sub(c, ren) for c in pcj] + dom(n_i, k_i) + zpos + [T.mk('flt', Z, Z2)]
+            m.submit(P + 'wider-with-level' + sfx, hy, T.and_(T.mk('fle', sub(loj, ren), loi), T.mk('fle', hii, sub(hij, ren))), key=P + 'wider-with-level', timeout=240, note="z < z' => CI(z) inside CI(z')", vacuity=vac)
+    for i, (pcl, lol, hil) in enumerate(exa[2]):
+        for j, (pcu, lou, hiu) in enumerate(exa[1]):
+            sfx = '' if not multi else ':paths%d-%d' % (i, j)
+            hy = nokind(pcl) + [sub(c, mir_ren) for c in nokind(pcu)] + dom(n_i, k_i)
+            m.submit(P + 'mirror:one-sided' + sfx, hy, T.and_(T.mk('feq', sub(lou, mir_ren), T.mk('fsub', one, hil)), T.mk('feq', sub(hiu, mir_ren), T.mk('fsub', one, lol))), key=P + 'mirror',
+                     note='upper one-sided CI(n, n-k) = 1 - lower one-sided CI(n, k)', vacuity=(i == j and not multi))
+    m.submit(P + 'monotone-in-k:premises', exa[0][0][0] + [sub(c, {'k': k2}) for c in exa[0][0][0]] + dom(n_i, k_i) + dom(n_i, k2) + [T.mk('ilt', k_i, k2)] + zrange, None, expect='sat', key='C17:vacuity')
+    # per path: inside [0,1] for EVERY kind (Wilson), midpoint
+    for kind in (0, 1, 2):
+        for i, (pc, lo, hi) in enumerate(exa[kind]):
+            sfx = KNAME[kind] + ('' if len(exa[kind]) == 1 else ':path%d' % i)
+            hy = pc + dom(n_i, k_i) + zpos
+            if tag == 'wilson':
+                m.submit(P + 'within-unit-interval:' + sfx, hy, T.and_(T.mk('fle', zero, lo), T.mk('fle', lo, hi), T.mk('fle', hi, one)), key=P + 'within-unit-interval', note='0 <= lower <= upper <= 1')
+            if kind == 0:
+                mid = T.mk('fdiv', T.mk('fadd', lo, hi), T.fconst(2))
+                if tag == 'wilson':
+                    goal = T.or_(T.and_(T.mk('fle', phat, mid), T.mk('fle', mid, half)), T.and_(T.mk('fle', half, mid), T.mk('fle', mid, phat)))
+                    m.submit(P + 'midpoint-between-phat-and-half:' + sfx, hy, goal, key=P + 'midpoint', note='midpoint of the two-sided interval lies between k/n and 1/2')
+                else:
+                    m.submit(P + 'midpoint-is-phat:' + sfx, hy, T.mk('feq', mid, phat), key=P + 'midpoint')
     m.collect()
